@@ -137,3 +137,19 @@ package main
 //@   dyncall modifies nothing
 //@   ensures result != nil ==> m.server == atlock(m.server) && (m.server != nil ==> running(m.server))
 //@   ensures result == nil ==> m.server != nil && running(m.server) && fresh(m.server)
+
+// ---- compiled request handler (C04, C08) -----------------------------------------------
+// every request gets a fresh VM, and that VM runs with a step limit
+// (contract-less callees of the handler never receive the request's VM, hence cannot touch it: unknowncalls frame)
+//@ func createCompiledRouteHandler$1
+//@   unknowncalls like dyncall
+//@   dyncall modifies allmaps(map[string]interface{})
+//@   callpre (*vm.VM).Execute arg0.maxSteps > 0 && fresh(arg0)
+//@ func (*vm.VM).SetMaxSteps
+//@   trusted
+//@   modifies vm.maxSteps
+//@   ensures vm.maxSteps == maxSteps
+//@ func vm.NewVM
+//@   trusted
+//@   modifies nothing
+//@   ensures result != nil && fresh(result)
